@@ -277,6 +277,10 @@ def task(cfg):
     viols = []
     npts = 0
     for hist, w in crash_points(ctx, cfg, cov):
+        if cov.c.get("traces_validated_against_impl", 0) > cfg.get("max_twins", 10 ** 9):
+            cov.cap("twin-continuation budget of %d per configuration reached (many workers): remaining crash points "
+                    "of that configuration not checked" % cfg["max_twins"])
+            break
         npts += 1
         cov.add("states")
         st = set(w.status.values())
